@@ -88,6 +88,14 @@ def run_check(prop, tier):
     known = report.load_known()
     try:
         jobs = mod.jobs(tier, seed, pool)
+        # plans that once exposed a genuine defect (now repaired) are re-run by every check of their property
+        regdir = os.path.join(VERIF, 'regressions', prop)
+        if os.path.isdir(regdir):
+            for fn in sorted(os.listdir(regdir)):
+                if fn.endswith('.json'):
+                    with open(os.path.join(regdir, fn)) as f:
+                        rp = json.load(f)
+                    jobs.insert(0, {'plan': rp.get('plan', rp), 'meta': {'kind': 'regression', 'file': fn}})
         deadline = t0 + mod.WALL_CAP[tier]
         results, skipped = pool.map(jobs, job_handler(prop), deadline=deadline)
 
@@ -116,7 +124,11 @@ def run_check(prop, tier):
                 probes[k] = probes.get(k, 0) + v
             for k, v in agg['faults'].items():
                 faults[k] = faults.get(k, 0) + v
-            ev, nt = mod.account(job, agg)
+            if job['meta'].get('kind') == 'regression':
+                ev, nt = 1, {'regression:' + job['meta']['file']}
+                probes['regression_plans_rerun'] = probes.get('regression_plans_rerun', 0) + 1
+            else:
+                ev, nt = mod.account(job, agg)
             evaluations += ev
             nontrivial.update(nt)
             for f in agg['fails']:
@@ -196,7 +208,8 @@ def run_check(prop, tier):
             exit_code = 2
 
         wall = time.time() - t0
-        samples = mod.samples(jobs)
+        own = [(j, a) for j, a in zip(jobs, results) if j['meta'].get('kind') != 'regression']
+        samples = mod.samples([j for j, _ in own])
         zero_probes = [p for p in getattr(mod, 'EXPECTED_PROBES', []) if probes.get(p, 0) == 0]
         coverage = {
             'evaluations': evaluations,
@@ -228,7 +241,7 @@ def run_check(prop, tier):
             coverage['notes'] = notes[:20]
         extra = getattr(mod, 'extra_coverage', None)
         if extra:
-            coverage.update(extra(jobs, results))
+            coverage.update(extra([j for j, _ in own], [a for _, a in own]))
         report.write_evidence(prop, tier, seed, mod.LEVEL, wall, len(reported), coverage, mod.ASSUMPTIONS)
         print('%s %s: %d evaluations (%d distinct non-trivial) in %.1fs, %d violation class(es), %d known finding(s)'
               % (prop, tier, evaluations, len(nontrivial), wall, len(reported), len(known_hits)))
